@@ -17,6 +17,7 @@ User ODEs: a forced oscillator reading particle 1 (coupled, BS) and a free oscil
 """
 import os, sys, json, math, random
 from vf import core, gen
+from vf.num import gt, nmax as max, nmin as min
 
 PROPERTY = "C01"
 EPS = 2.0 ** -52
@@ -159,7 +160,7 @@ def run_case(case):
                     opts = {'ri_ias15.epsilon': tol, 'ri_ias15.adaptive_mode': rr.choice([1, 2, 3])} if integ == 'ias15' else {'ri_bs.eps_rel': tol, 'ri_bs.eps_abs': tol}
                     sim, _k = build(integ, opts, 40)
                     sim.integrate(T, exact_finish_time=1)
-                    if abs(sim.t - T) > 1e-12 * abs(T):
+                    if gt(abs(sim.t - T), 1e-12 * abs(T)):
                         add('converge:did-not-reach-horizon:%s' % integ, '%s %s: t=%r, T=%r' % (desc0, opts, sim.t, T))
                     res.append((tol, err_of(sim), opts))
                 cls = 1e-9 if integ == 'ias15' else None
@@ -167,9 +168,9 @@ def run_case(case):
                     bound = 1e-10 if integ == 'ias15' else 1e4 * tol + 1e-12
                     if integ == 'ias15' and tol > 1e-8:
                         bound = 1e-5
-                    if e > bound:
+                    if gt(e, bound):
                         add('converge:accuracy-class:%s' % integ, '%s %r: error %.3e > %.1e' % (desc0, opts, e, bound))
-                if res[-1][1] > 10 * res[0][1] + 1e-12:
+                if gt(res[-1][1], 10 * res[0][1] + 1e-12):
                     add('converge:error-grows-when-tolerance-tightened:%s' % integ, '%s: errors %r' % (desc0, [(t_, '%.2e' % e_) for t_, e_, _o in res]))
                 cells.add(json.dumps([integ, 'tolerance']))
                 continue
@@ -216,11 +217,11 @@ def run_case(case):
                     key = 'max_trace_peri_error_x1e6:%s' % mode
                     counters[key] = max(counters.get(key, 0), int(e2 * 1e6))
                     # between pericentres the scheme is the second-order Wisdom-Holman map with steps up to P/2.7: a generous class bound
-                    if e2 > 0.08:
+                    if gt(e2, 0.08):
                         add('converge:accuracy-class:trace:pericentre-switching:%s%s' % (mode, ':backward' if direction < 0 else ''), 'G=%g mstar=%g dir=%+d: e=%.2f m=%.1e dt=P/%.1f %d steps %s: position error %.3e (units of a)' % (G, mstar, direction, ecc, mpl, kk, ns2, mode, e2))
                 dd = max(math.dist(a_, b_) for a_, b_ in zip(outp['FULL_BS'], outp['FULL_IAS15']))
                 counters['max_trace_full_bs_vs_full_ias15_x1e9'] = max(counters.get('max_trace_full_bs_vs_full_ias15_x1e9', 0), int(dd * 1e9))
-                if dd > 1e-5:
+                if gt(dd, 1e-5):
                     add('converge:trace:full-bs-and-full-ias15-disagree', 'e=%.2f m=%.1e dt=P/%.1f %d steps G=%g mstar=%g dir=%d: FULL_BS and FULL_IAS15 end %.3e apart' % (ecc, mpl, kk, ns2, G, mstar, direction, dd))
                 cells.add(json.dumps(['traceperi', kk, direction]))
                 continue
@@ -240,7 +241,7 @@ def run_case(case):
                     ode = keep[0]
                     e = max(abs(ode.y[0] - want[0]), abs(ode.y[1] - want[1]) / math.sqrt(w2))
                     res.append((tol, e))
-                    if e > 1e4 * tol + 1e-11:
+                    if gt(e, 1e4 * tol + 1e-11):
                         add('converge:user-ode:%s' % mode, '%s host %s tol %.0e: ODE error %.3e' % (desc0, host, tol, e))
                 cells.add(json.dumps(['ode', mode]))
                 continue
@@ -314,7 +315,7 @@ def run_case(case):
                         errs = None
                         add('converge:run-failed:%s' % integ, '%s %r: %r' % (desc0, opts, e_))
                         break
-                    if abs(sim.t - T) > 1e-9 * abs(T):
+                    if gt(abs(sim.t - T), 1e-9 * abs(T)):
                         add('converge:time-after-n-steps:%s' % integ, '%s %r: t=%r after %d steps of T/%d' % (desc0, opts, sim.t, ns, ns))
                     errs.append(err_of(sim))
                 # tiny mass ratios put accurate schemes at the rounding floor: coarsen until the order is measurable
@@ -374,9 +375,9 @@ def run_case(case):
                 # known finding (Jacobi gravity ignores N_active): the run converges to a different solution, however that shows up
                 add('converge:order-below-advertised:%s:jacobi-gravity-with-massive-semi-active-test-particles' % integ, '%s: does not converge to the reference' % desc)
             else:
-                if errs[-1] > bound:
+                if gt(errs[-1], bound):
                     add('converge:accuracy-class:%s' % integ, '%s: error at the finest resolution above %.1e' % (desc, bound))
-                if errs[-1] > 1.5 * errs[0] + floor * 10:
+                if gt(errs[-1], 1.5 * errs[0] + floor * 10):
                     add('converge:error-grows-with-resolution:%s' % integ, desc)
             # WHFast correctors: a symplectic corrector removes the periodic O(eps dt^2) part of the error; what remains grows secularly
             # and can exceed the plain map's error at particular phases.  Compared over four output times it must never be far worse
@@ -396,7 +397,7 @@ def run_case(case):
                         w_ = max(w_, max(math.sqrt((p.x - q[0]) ** 2 + (p.y - q[1]) ** 2 + (p.z - q[2]) ** 2) for p, q in zip(sc_.particles, seg[k4])) / size)
                     worst[lab] = w_
                 counters['corrector_comparisons'] = counters.get('corrector_comparisons', 0) + 1
-                if worst['corrected'] > 30 * worst['plain'] + 1e-9:
+                if gt(worst['corrected'], 30 * worst['plain'] + 1e-9):
                     add('converge:corrector-degrades-accuracy:whfast', '%s: max error over 4 output times with corrector %.3e, without %.3e' % (desc, worst['corrected'], worst['plain']))
             cells.add(json.dumps([integ, sorted((k_, str(v_)) for k_, v_ in opts.items() if 'scale' not in k_), tp, direction]))
     for v in viol:
